@@ -4,6 +4,8 @@ Case kinds (all JSON-able; JSON objects travel as their text so member order sur
   {"kind":"key",   "key": str}                                   one key through clean_record({key: marker}, False)
   {"kind":"clean", "json": text, "colorize": bool}               LogFormatter(None).clean_record(json.loads(text), colorize)
   {"kind":"gcl",   "json": text, "severity": int}                GoogleLogger.write_event(dict) with stdout captured
+  {"kind":"gcl",   "text": text, "severity": int, "service": bool}   a TEXT message: write_event(text), or (service) K_SERVICE set and
+                                                                      get_logger().<error|audit|alert>(text) (get_logger() is then a GoogleLogger); dict cases may carry "service" too
   {"kind":"fmt",   "msg": text, "layout": 0|1|2, "suppress": bool, "env": 0|1|2, "level": name, "as_dict": bool}
         layout 0 = the real logger of create_logger.get_logger() end to end (handler stream captured),
         layout 1 = "%(message)s", layout 2 = "%(levelname)s|%(message)s", layout 3 = "%(name)s | %(levelname)-8s | %(message)s" through LogFormatter.format.
@@ -22,6 +24,7 @@ Markers: text markers  mk<3 letters g-z>[ | ]<5 digits>  and numbers >= 10**8 ar
 uk<3 letters><5 digits> are the user / password parts of URLs."""
 import contextlib
 import copy
+import unicodedata
 import zlib
 import itertools
 import hashlib
@@ -179,6 +182,46 @@ def gen(repo):
     if sorted(ce) != sorted(LEVEL_TEXTS):
         _fail("COLOR_EXCHANGES keys are not the level texts the generators plant in messages: %r" % (sorted(ce),))
 
+    # --- what "case-insensitive" means for an ASCII letter in Python's re: the non-ASCII code points that match it ------
+    if not all(p.isascii() for p in pats):
+        _fail("non-ASCII characters in KEYS_TO_SANITIZE are outside the modelled subset")
+    hits = re.findall(re.compile("[a-z]", re.IGNORECASE), "".join(map(chr, range(128, 0x110000))))
+    fold_extra = []
+    for ch in hits:
+        letters = [a for a in "abcdefghijklmnopqrstuvwxyz" if re.fullmatch(a, ch, re.IGNORECASE)]
+        if len(letters) != 1:
+            _fail("code point U+%04X matches %r case-insensitively" % (ord(ch), letters))
+        fold_extra.append((ord(ch), ord(letters[0])))
+    by_str = sorted((x, ord(_fold_char(chr(x)))) for x in range(128, 0x110000) if _fold_char(chr(x)).isascii())
+    if sorted(fold_extra) != by_str:
+        _fail("re.IGNORECASE and the str case mappings disagree on the non-ASCII case variants of ASCII letters: %r vs %r" % (sorted(fold_extra), by_str))
+
+    # --- GoogleLogger.write_event: the URL user-info substitution for text messages (e6db699) -----------------------
+    gsrc = os.path.join(repo, "orso", "logging", "google_cloud_logger.py")
+    gmod = importlib.import_module("orso.logging.google_cloud_logger")
+    if os.path.realpath(gmod.__file__) != os.path.realpath(gsrc):
+        _fail(f"imported module {gmod.__file__} is not the tree under examination {gsrc}")
+    we = _method_def(ast.parse(open(gsrc).read()), "GoogleLogger", "write_event")
+    gsubs = _re_sub_calls(we)
+    if len(gsubs) != 1 or len(gsubs[0].args) != 3 or gsubs[0].keywords:
+        _fail("write_event(): expected exactly one re.sub(pattern, replacement, message) for text messages")
+    if _const_str(gsubs[0].args[0], "write_event URL pattern") != EXPECTED_URL_RE:
+        _fail("write_event(): the URL user-info pattern is not the modelled expression")
+    g_repl = _const_str(gsubs[0].args[1], "write_event URL replacement")
+    g_exp = re.sub(EXPECTED_URL_RE, g_repl, "://@")
+    if g_exp != re.sub(EXPECTED_URL_RE, g_repl, "://xyz@") or "xyz" in g_exp or not g_exp.startswith("://"):
+        _fail("write_event(): URL replacement refers to the matched user-info or does not restore '://': %r" % g_repl)
+
+    # report_suppressions of GoogleLogger strips a suppressed text warning with the same substitution (a375704)
+    rs = [n for n in ast.parse(open(gsrc).read()).body if isinstance(n, ast.FunctionDef) and n.name == "report_suppressions"]
+    if len(rs) != 1:
+        _fail("google_cloud_logger.report_suppressions not found")
+    rsubs = _re_sub_calls(rs[0])
+    if (len(rsubs) != 1 or len(rsubs[0].args) != 3 or rsubs[0].keywords
+            or _const_str(rsubs[0].args[0], "report URL pattern") != EXPECTED_URL_RE
+            or _const_str(rsubs[0].args[1], "report URL replacement") != g_repl):
+        _fail("google_cloud_logger.report_suppressions: expected the re.sub that write_event applies to text messages")
+
     def tx(s):
         return L.text(s)   # the Gen file uses plain code-point lists
 
@@ -200,6 +243,9 @@ def gen(repo):
     out.append("Definition C20_color_exchanges : list (list N * list N) := %s." % table(ce))
     out.append("Definition C20_colors : list (list N * list N) := %s." % table(colors))
     out.append("Definition C20_url_replacement : list N := %s." % tx(url_repl))
+    out.append("Definition C20_gcl_url_replacement : list N := %s." % tx(g_exp))
+    out.append("(* non-ASCII code points that match an ASCII letter under re.IGNORECASE: (code point, the lower-case letter) *)")
+    out.append("Definition C20_casefold_extra : list (N * N) := %s." % L.lst("(%s, %s)" % (L.N(a), L.N(b)) for a, b in sorted(fold_extra)))
     return {"C20_LogKeys": "\n".join(out) + "\n"}
 
 ID = "C20"
@@ -220,12 +266,16 @@ LEVEL_TEXT = ("Machine-checked Coq theorems: the regenerated KEYS_TO_SANITIZE ta
               "tail is searched on the record as given and the level is colour-coded in the header fields only, so the clean-branch theorem holds for colour on "
               "and off whatever the message contains (F-C20-7). Duplicate warnings: a session model of 'log at WARNING n times, then interpreter exit' for the stream "
               "logger and GoogleLogger, with the theorems that every emitted message is a caller's warning or the report DICT and that cleaning the report redacts "
-              "every sensitive member of the suppressed message (F-C20-8); the harness patches atexit.register, runs the registered reports and captures every record.")
+              "every sensitive member of the suppressed message (F-C20-8); the harness patches atexit.register, runs the registered reports and captures every record. "
+              "Round 4: keys spelled with the non-ASCII case variants of ASCII letters are inside spec, model and generators; GoogleLogger.write_event with a text "
+              "message (JSON object as text = the dict; URL user-info removed from other text) is modelled, proved and compared (direct and as get_logger() with K_SERVICE).")
 LEVEL_NOTE = ("Warning sessions: that a report is logged at all and the order of atexit callbacks are modelled and compared, not proved about CPython; hash() collisions "
-              "of the seen-warnings table are ignored; GoogleLogger.write_event with a TEXT message is not sanitised by the library at all (candidate F-C20-9, notes) and is outside the streams. "
+              "of the seen-warnings table are ignored; GoogleLogger.write_event with a TEXT message is modelled since e6db699 (stream gclt); log_it's fall-back to the standard-library dumps (18d2bea) is "
+              "invisible to the streams, which compare the PARSED fields of the printed line. "
               "Trusted/modelled, not verified: json.loads/json.dumps/orjson, sha256 digest (oracle tables), CPython str()/repr() of parsed JSON values and re "
-              "(modelled for the subset used; IGNORECASE is ASCII only: non-ASCII case folding such as U+017F/U+212A is outside the model and outside the generators); "
-              "logging.Formatter output is taken as the input text. F-C20-1..8 are fixed in /repo; their witnesses run first on every run.")
+              "(modelled for the subset used; IGNORECASE folds A-Z and the regenerated table of non-ASCII code points that match an ASCII letter - U+0130, U+0131, U+017F, U+212A - "
+              "onto a-z; multi-letter foldings such as sharp s -> ss are not case variants of a letter and stay visible); "
+              "logging.Formatter output is taken as the input text. F-C20-1..11 are fixed in /repo; their witnesses run first on every run.")
 DESIGN_REF = "DESIGN.md section 8, C20"
 COQ_IMPORTS = "From Coq Require Import String.\nFrom Orso Require Import Model.C20."
 COQ_CHECKS = {"key": "c20_check_key", "clean": "c20_check_clean", "fmt": "c20_check_fmt", "gcl": "c20_check_gcl", "sess": "c20_check_sess"}
@@ -233,6 +283,8 @@ COQ_SHOW = {"key": "c20_show_key", "clean": "c20_show_clean", "fmt": "c20_show_f
 # the two heavy streams are dealt over two files each (same check function) so that the shards compile in parallel
 COQ_CHECKS["warn"] = "c20_check_warn"
 COQ_SHOW["warn"] = "c20_show_warn"
+COQ_CHECKS["gclt"] = "c20_check_gclt"
+COQ_SHOW["gclt"] = "c20_show_gclt"
 for _st in ("fmt", "sess"):
     COQ_CHECKS[_st + "b"] = COQ_CHECKS[_st]
     COQ_SHOW[_st + "b"] = COQ_SHOW[_st]
@@ -258,7 +310,8 @@ TRUSTED = [
     "COLOR_EXCHANGES, orso.display.COLORS, the URL replacement text (AST)",
 ]
 ASSUMPTIONS = [
-    "case-insensitive matching is ASCII case folding (keys in the generators are ASCII letters plus caseless non-ASCII characters)",
+    "case-insensitive matching is per-character folding onto ASCII lower case: A-Z plus Gen C20_casefold_extra (derived from the live re engine with IGNORECASE, "
+    "required to equal what the str case mappings give); patterns are ASCII (gen fails closed otherwise)",
     "'$' also matches before a final newline (Python semantics, modelled): the code -> spec direction of the key theorem carries 'the key does not end in a newline'",
     "URL theorem: user and password contain neither '@' nor a newline ('.' does not match a newline) and the text before the URL contains no '://'",
     "clean theorems are parametric in str(), repr(), the digest and the quote colouring; paths step through object members and array items",
@@ -282,15 +335,31 @@ PLACEHOLDER = _re.compile(r"<redacted:[0-9a-f]{4,}>")
 
 # ----------------------------------------------------------------------------------------------
 # the property's own reading of "sensitive key" (independent of the implementation and of the model)
+def _fold_char(c):
+    """The ASCII lower-case letter a character is a case variant of (by the str case mappings, not by re), else the character:
+    K (U+212A) lower-cases to k; long s (U+017F) and dotless i (U+0131) upper-case to S / I; dotted capital I (U+0130) lower-cases
+    to i + a combining dot.  Multi-letter foldings (sharp s -> ss) are not case variants of a letter."""
+    if c.isascii():
+        return c.lower()
+    lo, up = c.lower(), c.upper()
+    if len(lo) == 1 and lo.isascii():
+        return lo
+    if len(up) == 1 and up.isascii():
+        return up.lower()
+    if len(lo) > 1 and lo[0].isascii() and all(unicodedata.combining(x) for x in lo[1:]):
+        return lo[0]
+    return c
+
+
 def spec_sensitive(key):
-    k = key.lower()
+    k = "".join(_fold_char(c) for c in key)
     return any(k.endswith(s) for s in SENSITIVE_SUFFIXES) or any(s in k for s in SENSITIVE_INFIXES)
 
 
 def key_in_quantifier(key):
-    """What the property's quantifier covers: no trailing newline ('$' quirk) and none of the four non-ASCII
-    characters whose case folding reaches an ASCII letter (U+017F, U+212A, U+0130, U+0131)."""
-    return not key.endswith("\n") and not any(c in "\u017f\u212a\u0130\u0131" for c in key)
+    """What the property's quantifier covers: no trailing newline ('$' quirk).  The four non-ASCII case variants of ASCII
+    letters (U+017F, U+212A, U+0130, U+0131) are inside since round 4."""
+    return not key.endswith("\n")
 
 
 def _has_surrogate(s):
@@ -331,7 +400,7 @@ def _top_sensitive(v):
 
 def _case_object(case):
     """The JSON object a case logs, parsed with the standard library (None for plain text)."""
-    txt = case.get("json") if case["kind"] in ("clean", "gcl") else case.get("msg") if case["kind"] == "fmt" else None
+    txt = case.get("json", case.get("text")) if case["kind"] in ("clean", "gcl") else case.get("msg") if case["kind"] == "fmt" else None
     if txt is None:
         return None
     try:
@@ -375,7 +444,7 @@ _DIGEST_HINTS = ("password", "pwd", "secret", "key", "token", "credential")
 def _may_be_hashed(key):
     """A generous superset of the keys whose value can be hashed (any key holding one of the words at all).  Only used to keep the
     session streams' digest tables short: a digest the model asks for and does not find reads '<no digest supplied>' = a mismatch."""
-    k = key.lower()
+    k = "".join(_fold_char(c) for c in key)
     return any(w in k for w in _DIGEST_HINTS)
 
 
@@ -489,16 +558,37 @@ def _observe_clean(case):
 def _observe_gcl(case):
     from orso.logging import google_cloud_logger as g
 
+    from orso.logging import create_logger
+
     _set_env(0)
-    o = json.loads(case["json"])
+    o = json.loads(case["json"]) if "json" in case else case["text"]
     buf = io.StringIO()
     exc = None
     try:
         with contextlib.redirect_stdout(buf):     # log_it prints the structured line; nothing goes to the network
-            g.GoogleLogger.write_event(o, system="verif", severity=case["severity"])
+            if case.get("service"):
+                os.environ["K_SERVICE"] = "verif"
+                create_logger.get_logger.cache_clear()
+                logger = create_logger.get_logger()
+                if not isinstance(logger, g.GoogleLogger):
+                    raise RuntimeError("get_logger() is not a GoogleLogger although K_SERVICE is set")
+                getattr(logger, {40: "error", 80: "audit", 90: "alert"}[case["severity"]])(o)
+            else:
+                g.GoogleLogger.write_event(o, system="verif", severity=case["severity"])
     except Exception as e:  # noqa
         exc = type(e).__name__
+    finally:
+        if case.get("service"):
+            os.environ.pop("K_SERVICE", None)
+            create_logger.get_logger.cache_clear()
     line = buf.getvalue()
+    if isinstance(o, str):
+        try:
+            o = json.loads(o)
+        except ValueError:
+            o = None
+        if not isinstance(o, dict):
+            o = {}
     fields = None
     try:
         d = json.loads(line)
@@ -907,7 +997,7 @@ def _observe_warn(case):
         create_logger.get_logger.cache_clear()
     recs = []
     objs = []
-    for line in stdout.getvalue().splitlines():
+    for line in [x for x in stdout.getvalue().split("\n") if x]:      # not splitlines(): orjson prints U+0085 etc. as they are
         fields = None
         try:
             d = json.loads(line)
@@ -960,7 +1050,7 @@ def _oracle_warn(case, obs):
     for m in visible:
         if m not in out:
             return f"marker {m!r} is stored under a non-sensitive key and must remain visible; emitted: {out[-900:]!r}"
-    if case["mode"] == "stream":
+    if True:      # since e6db699 GoogleLogger removes URL user-info from text messages too
         for m in case.get("userinfo", []):
             if m in out:
                 return f"URL user-info {m!r} must be removed from everything the process emits (report at exit included); emitted: {out[-900:]!r}"
@@ -1071,7 +1161,7 @@ def oracle(case, obs):
         if have < need:
             return f"{need} sensitive members need a digest placeholder <redacted:hhhhhhhh>, output shows {have}: {out[:600]!r}"
         return None
-    if k == "fmt":
+    if k in ("fmt", "gcl"):
         # plain text: user-info of every URL the case planted must be gone
         for m in case.get("userinfo", []):
             if m in out:
@@ -1085,7 +1175,7 @@ def oracle(case, obs):
 
 
 def known(case, obs):
-    return None     # no open finding: F-C20-1..8 are fixed, their witnesses are in corpus()
+    return None     # no open finding: F-C20-1..11 are fixed, their witnesses are in corpus()
 
 
 KNOWN_WITNESSES = {}
@@ -1192,6 +1282,16 @@ def _to_coq(case, obs):
         return _to_coq_warn(case, obs)
     if obs.get("exc"):
         return None
+    if k == "gcl" and "text" in case:
+        if obs["fields"] is None or not _model_covers_text(case["text"]):
+            return None
+        o = _case_object(case)
+        if o is not None:
+            acc = []
+            _texts_of(o, acc)
+            if not all(_model_covers_text(x) for x in acc):
+                return None
+        return ("gclt", _term("c20_dec_gclt", [_a(case["text"]), _l([]) if o is None else _sj(o), _sdigests(obs["digests"]), _spairs(obs["fields"])]))
     if k == "clean" or k == "gcl":
         o = json.loads(case["json"])
         acc = []
@@ -1267,6 +1367,10 @@ def classify(case, obs):
             yield "urls=%d" % len(case["userinfo"])
     if k == "clean":
         yield "colorize:" + str(case["colorize"])
+    if k == "gcl":
+        yield "gcl:" + ("text-message" if "text" in case else "dict-message") + (":via-get_logger(K_SERVICE)" if case.get("service") else ":write_event")
+        if case.get("userinfo"):
+            yield "gcl:urls=%d" % min(3, len(case["userinfo"]) // 2)
     if o is not None:
         yield "depth=%d" % (_depth(o) - 1)
         marks = []
@@ -1309,8 +1413,28 @@ FILL = list("abc xyz,.:;{}[]()-_=+/\\!?#%&*<>~^$") + ["'", '"', "`", "|", " | ",
 URLSAFE = list("abcdefXYZ0123456789-._~!$&'()*+,;=%") + ["|", '"', "`", " "]
 
 
+NONASCII_VARIANTS = {"s": ["\u017f"], "S": ["\u017f"], "k": ["\u212a"], "K": ["\u212a"], "i": ["\u0131", "\u0130"], "I": ["\u0130", "\u0131"]}
+
+
+def nonascii_forms(w):
+    """Spellings of w in which letters are replaced by their non-ASCII case variants: each position alone, and all at once."""
+    out = []
+    pos = [i for i, c in enumerate(w) if c in NONASCII_VARIANTS]
+    for i in pos:
+        for v in NONASCII_VARIANTS[w[i]]:
+            out.append(w[:i] + v + w[i + 1:])
+    if len(pos) > 1:
+        for pick in (0, -1):
+            out.append("".join(NONASCII_VARIANTS[c][pick] if c in NONASCII_VARIANTS else c for c in w))
+    return out
+
+
 def _casevar(rng, w):
     r = rng.random()
+    if r < 0.12:
+        forms = nonascii_forms(rng.choice([w, w.upper(), w.title()]))
+        if forms:
+            return rng.choice(forms)
     if r < 0.4:
         return w
     if r < 0.55:
@@ -1333,6 +1457,22 @@ def key_table():
                         out.append(form)
     for k in LOOKALIKES:
         for form in (k, k.upper(), k + "\n"):
+            if form not in out:
+                out.append(form)
+    # non-ASCII case variants of ASCII letters (long s, Kelvin sign, dotted capital I, dotless i) in the sensitive words and in
+    # look-alikes, plus letters that are NOT case variants (sharp s, s with caron, i with acute, fullwidth k, Cyrillic/Greek look-alikes)
+    for w in WORDS:
+        for base in (w, w.upper(), w.title()):
+            for form in nonascii_forms(base):
+                for p in ("", "db_", "X", "\u017f"):
+                    for suf in ("", "s", "_id"):
+                        if p + form + suf not in out:
+                            out.append(p + form + suf)
+        for a, b in (("s", "\u00df"), ("s", "\u0161"), ("i", "\u00ed"), ("k", "\uff4b"), ("e", "\u0435"), ("o", "\u03bf"), ("ss", "\u00df")):
+            if a in w and w.replace(a, b, 1) not in out:
+                out.append(w.replace(a, b, 1))
+    for k in ("key", "token", "secret", "passwords", "credential"):
+        for form in nonascii_forms(k) + nonascii_forms(k.upper()):
             if form not in out:
                 out.append(form)
     return out
@@ -1575,9 +1715,25 @@ def _rand_clean(rng):
 
 
 def _rand_gcl(rng):
-    # orjson cannot print a lone surrogate, so here they sit under sensitive keys only (where they are hashed away)
-    o, txt = _rand_object_text(rng, _special(rng), surrogate_under=("sensitive",))
+    # since 18d2bea log_it falls back to the standard library when orjson refuses a lone surrogate: they may sit anywhere
+    o, txt = _rand_object_text(rng, _special(rng))
     return {"kind": "gcl", "json": json.dumps(o), "severity": rng.choice([10, 20, 40, 80, 90])}
+
+
+def _rand_gcl_text(rng):
+    """A TEXT message through GoogleLogger: a JSON object as text, a text with URLs, or malformed JSON; directly or as get_logger()."""
+    service = rng.random() < 0.5
+    sev = rng.choice([40, 80, 90]) if service else rng.choice([10, 20, 40, 80, 90])
+    r = rng.random()
+    if r < 0.5:
+        o, txt = _rand_object_text(rng, _special(rng))
+        c = {"kind": "gcl", "text": txt, "severity": sev, "service": service}
+    elif r < 0.9:
+        u = _rand_url_text(rng)
+        c = {"kind": "gcl", "text": u["msg"], "severity": sev, "service": service, "userinfo": u["userinfo"]}
+    else:
+        c = {"kind": "gcl", "text": _rand_malformed(rng)["msg"], "severity": sev, "service": service}
+    return c
 
 
 def _rand_keycase(rng):
@@ -1875,6 +2031,14 @@ def warn_table():
         u = "retry postgres://ukyzg%05d:ukyzh%05d@db/x now" % (n, n)
         out.append({"kind": "warn", "mode": "stream", "msgs": [{"t": u}] * times, "suppress": True, "env": 0,
                     "userinfo": ["ukyzg%05d" % n, "ukyzh%05d" % n]})
+        for mode in ("gcl-direct", "gcl-service"):      # text messages through GoogleLogger (e6db699)
+            n += 1
+            t = json.dumps({"user": "mkyzl%05d" % n, "cfg": {"client_secret": "mkyzm%05d" % n}})
+            out.append({"kind": "warn", "mode": mode, "msgs": [{"t": t}] * times, "suppress": True, "env": 0})
+            n += 1
+            u = "retry amqp://ukyzi%05d:ukyzj%05d@mq/x now" % (n, n)
+            out.append({"kind": "warn", "mode": mode, "msgs": [{"t": u}] * times, "suppress": True, "env": 0,
+                        "userinfo": ["ukyzi%05d" % n, "ukyzj%05d" % n]})
     return out
 
 
@@ -1888,11 +2052,14 @@ def _rand_warn(rng):
         while True:
             o = _object(st, rng.choice([0, 0, 1]), rng.random() < 0.3)
             o[_rand_key(rng, "sensitive")] = _leaf(st)
-            if len(json.dumps(o)) <= 260 and not _has_surrogate(json.dumps(o, ensure_ascii=False)):
+            if rng.random() < 0.15:      # lone surrogates, under a visible and under a sensitive key
+                o[rng.choice(NEUTRAL) + "_u"] = rng.choice(["x\ud800", "\udfff " + st.text_marker(False)])
+                o[_rand_key(rng, "sensitive")] = "\ud83d" + st.text_marker(False)
+            if len(json.dumps(o)) <= 260:
                 break
-        if mode == "stream" and r < 0.2:
-            distinct.append({"t": json.dumps(o, ensure_ascii=rng.random() < 0.5)})
-        elif mode == "stream" and r < 0.35:
+        if r < 0.2:
+            distinct.append({"t": json.dumps(o, ensure_ascii=_has_surrogate(json.dumps(o, ensure_ascii=False)) or rng.random() < 0.5)})
+        elif r < 0.35:
             u, pw = st.user_marker(), st.user_marker()
             userinfo += [u, pw]
             distinct.append({"t": "failed " + rng.choice(["https", "amqp", "postgres"]) + "://" + u + ":" + pw + "@host/" + st.filler(3, list("abc |'")) + " again"})
@@ -1924,7 +2091,7 @@ def _planted(cases):
                             raise RuntimeError("C20 plugin: text warning without recognisable user-info markers: %r" % (c,))
                         continue
                 vals.append(v)
-        elif c["kind"] == "fmt":
+        elif c["kind"] in ("fmt", "gcl"):
             o = _case_object(c)
             if o is None:
                 if not c.get("userinfo") or not all(USER_MARKER.fullmatch(u) for u in c["userinfo"]):
@@ -1982,11 +2149,38 @@ def corpus():
         for layout in (3, 0):
             out.append({"kind": "fmt", "msg": json.dumps({"note": text, "password": "mkxyz4%04d" % (2 * i + (layout == 0))}), "layout": layout,
                         "suppress": False, "env": 1, "level": level, "as_dict": False})
+    # F-C20-9 (e6db699): text messages through GoogleLogger, directly and as get_logger() with K_SERVICE set
+    for i, service in enumerate((False, True)):
+        out.append({"kind": "gcl", "text": "connect postgres://ukxyz6%04d:ukxyw6%04d@db/x failed" % (i, i), "severity": 40, "service": service,
+                    "userinfo": ["ukxyz6%04d" % i, "ukxyw6%04d" % i]})
+        out.append({"kind": "gcl", "text": json.dumps({"password": "mkxyz6%04d" % i, "note": "mkxyw6%04d" % i}), "severity": 40, "service": service})
+        out.append({"kind": "gcl", "json": json.dumps({"cfg": {"api_key": "mkxyz7%04d" % i}, "note": "mkxyw7%04d" % i}), "severity": 80, "service": service})
+    # round 4: non-ASCII case variants of the letters of sensitive keys (long s, Kelvin sign, dotted capital I, dotless i), at depth
+    na = json.dumps({"pa\u017f\u017fword": "mkxyz80001", "cfg": {"client_\u017fecret": "mkxyz80002", "api_\u212aey": ["mkxyz80003", 1],
+                                                                 "rows": [{"CREDENT\u0130ALS": "mkxyz80004", "credent\u0131als_file": {"x": "mkxyz80005"}}]},
+                     "pa\u00dfword": "mkxyw80006", "\u212aey": "mkxyw80007"})
+    for layout in (1, 3, 0):
+        out.append({"kind": "fmt", "msg": na, "layout": layout, "suppress": layout == 1, "env": 1, "level": "error", "as_dict": False})
+    out.append({"kind": "clean", "json": na, "colorize": False})
+    out.append({"kind": "gcl", "json": na, "severity": 20})
+    for k in ("pa\u017f\u017fword", "DB_PA\u017f\u017fWORD", "client_\u017fecret", "credential\u017f_file", "api_\u212aey", "CREDENT\u0130ALS", "credent\u0131als",
+              "pa\u00dfword", "\u212aey"):
+        out.append({"kind": "key", "key": k})
+    # F-C20-10 (a375704): a URL text warning dropped as a duplicate and reported at exit by GoogleLogger; F-C20-11 (18d2bea): a JSON
+    # object given as text with a lone surrogate, and a dict holding one under a visible key (orjson refuses both)
+    for mode in ("gcl-service", "gcl-direct"):
+        out.append({"kind": "warn", "mode": mode, "suppress": True, "env": 0, "userinfo": ["ukghi10001", "ukghi10002"],
+                    "msgs": [{"t": "retry postgres://ukghi10001:ukghi10002@db/x now"}] * 2})
+    for service in (False, True):
+        out.append({"kind": "gcl", "text": '{"password": "mkghi11001", "note": "x\\ud800 mkghi11002"}', "severity": 40, "service": service})
+        out.append({"kind": "gcl", "json": '{"api_key": "mkghi11003", "note": "x\\udfff mkghi11004", "rows": [{"v": "\\ud83d"}]}', "severity": 40, "service": service})
+    out.append({"kind": "warn", "mode": "gcl-service", "suppress": True, "env": 0,
+                "msgs": [{"t": '{"db_password": "mkghi11005", "note": "x\\ud800 mkghi11006"}'}] * 2})
     # F-C20-8 (84f3a17): a dict warning with a sensitive key logged twice, then interpreter exit; both loggers
     for i, mode in enumerate(("stream", "gcl-direct", "gcl-service")):
         d = json.dumps({"password": "mkxyz5%04d" % i, "note": "mkxyw5%04d" % i})
         out.append({"kind": "warn", "mode": mode, "msgs": [{"d": d}, {"d": d}], "suppress": True, "env": 0})
-    _planted([c for c in out if c["kind"] == "warn" or "mkxyz4" in c.get("msg", "")])
+    _planted([c for c in out if c["kind"] == "warn" or "mkxyz4" in c.get("msg", "") or (c["kind"] == "gcl" and "text" in c)])
     # one object referenced from several places of a payload handed over as Python objects (round 3)
     conn = _conn_cell(["mkstu30001", "mkstu30002", "mkstu|30003"])
     for members, extra in (([["primary", {"r": 0}], ["replica", {"r": 0}]], []),
@@ -2025,14 +2219,19 @@ def generate(rng, tier):
     for i in range(200 * scale):
         yield _rand_clean(rng)
     for i in range(150 * scale):
-        yield _rand_gcl(rng)
+        c = _rand_gcl(rng)
+        if i % 5 == 4:
+            c = dict(c, service=True, severity=rng.choice([40, 80, 90]))
+        yield c
+    for i in range(50 * scale):
+        yield _rand_gcl_text(rng)
     for i in range(200 * scale):
         yield _rand_keycase(rng)
-    for i in range(80 * scale):
+    for i in range(60 * scale):
         yield _rand_session(rng)
     for i in range(12 * scale):
         yield _rand_graph_fmt(rng)
-    for i in range(24 * scale):
+    for i in range(16 * scale):
         yield _rand_warn(rng)
 
 
@@ -2050,6 +2249,8 @@ def search(rng):
         elif r < 0.75:
             o, txt = _rand_object_text(rng, "ensure-secret")
             yield {"kind": "gcl", "json": json.dumps(o), "severity": 20}
+        elif r < 0.8:
+            yield _rand_gcl_text(rng)
         elif r < 0.85:
             yield _rand_session(rng)
         elif r < 0.93:
